@@ -98,7 +98,7 @@ func generate(o *Options) *runResult {
 	var targets []*Contract
 	for _, k := range sortedKeys(specs.Contracts) {
 		c := specs.Contracts[k]
-		if c.Extern || c.PkgPath == "" || !hasProp(c.Props, o.Prop) {
+		if c.Extern || c.Kind != "func" || c.PkgPath == "" || !hasProp(c.Props, o.Prop) {
 			continue
 		}
 		if o.Only != "" && !strings.Contains(c.Full, o.Only) {
